@@ -792,6 +792,12 @@ func addrRoot(v ssa.Value) ssa.Value {
 			return x
 		case *ssa.MakeSlice:
 			return x
+		case *ssa.FreeVar:
+			b := core.FreeVarBinding(x)
+			if b == nil {
+				return nil
+			}
+			v = b
 		default:
 			return nil
 		}
